@@ -56,6 +56,147 @@ def _cutoff(ctx, f, loop, key_expr, costs_name, same_count):
                       "a stable message is repeated a bounded number of times; the counter must advance or it repeats for ever")
 
 
+def _peval(e, env):
+    """Partial evaluation of a boolean expression; env: expression text -> python constant or ast node.
+    Returns True / False / residual ast."""
+    t = norm(e)
+    if t in env:
+        v = env[t]
+        return _peval(v, env) if isinstance(v, ast.AST) else v
+    if isinstance(e, ast.Constant):
+        return e.value
+    if isinstance(e, ast.UnaryOp) and isinstance(e.op, ast.Not):
+        v = _peval(e.operand, env)
+        return (not v) if isinstance(v, bool) else ast.UnaryOp(op=ast.Not(), operand=v)
+    if isinstance(e, ast.BoolOp):
+        is_or = isinstance(e.op, ast.Or)
+        rest = []
+        for x in e.values:
+            v = _peval(x, env)
+            if isinstance(v, bool):
+                if v == is_or:
+                    return is_or
+                continue
+            rest.append(v)
+        if not rest:
+            return not is_or
+        return rest[0] if len(rest) == 1 else ast.BoolOp(op=e.op, values=rest)
+    if isinstance(e, ast.Compare) and len(e.ops) == 1:
+        l, r = _peval(e.left, env), _peval(e.comparators[0], env)
+        if isinstance(l, str) and not isinstance(l, ast.AST):
+            if isinstance(r, str):
+                if isinstance(e.ops[0], ast.Eq):
+                    return l == r
+                if isinstance(e.ops[0], ast.NotEq):
+                    return l != r
+            if isinstance(e.comparators[0], (ast.List, ast.Tuple, ast.Set)) and all(isinstance(x, ast.Constant) for x in e.comparators[0].elts):
+                vals = [x.value for x in e.comparators[0].elts]
+                if isinstance(e.ops[0], ast.In):
+                    return l in vals
+                if isinstance(e.ops[0], ast.NotIn):
+                    return l not in vals
+    return e
+
+
+def _disjuncts(e):
+    if isinstance(e, bool):
+        return [e]
+    if isinstance(e, ast.BoolOp) and isinstance(e.op, ast.Or):
+        out = []
+        for v in e.values:
+            out += _disjuncts(v)
+        return out
+    return [e]
+
+
+def _async_factor(ctx, repo):
+    """R-ASYNC (from a triaged defect): a factor that defers its answers until it has heard from all its
+    variables (a) must not defer in a start mode where some variables stay silent until they receive
+    something, (b) must answer the sender too at the moment the set becomes complete."""
+    af = repo.func(AMS, "MaxSumFactorComputation._on_maxsum_msg")
+    avs = repo.func(AMS, "MaxSumVariableComputation.on_start")
+    sender = af.params[1]
+    modes = None
+    for c in ast.walk(repo.module(MS).tree):
+        if isinstance(c, ast.Call) and call_name(c) == "AlgoParameterDef" and c.args and norm(c.args[0]) == "'start_messages'" and len(c.args) >= 3 and isinstance(c.args[2], ast.List):
+            modes = [x.value for x in c.args[2].elts if isinstance(x, ast.Constant)]
+    if not modes:
+        ctx.bad("R-ASYNC", "start_messages values", repo.module(MS), repo.module(MS).tree, "the enumeration of start modes was not found")
+        return
+    # modes in which every variable sends at start (its init send is not restricted to leaves)
+    ffs = FuncFacts(avs.node)
+    all_send = set()
+    posts = [c for c in ast.walk(avs.node) if isinstance(c, ast.Call) and is_self_attr(c.func, "post_msg")]
+    for m in modes:
+        for c in posts:
+            conds = [(t, p) for t, p in facts_at(ffs, c)]
+            val = True
+            for t, p in conds:
+                v = _peval(t if p else ast.UnaryOp(op=ast.Not(), operand=t), {"self.start_messages": m})
+                if v is False:
+                    val = False
+                    break
+                if v is not True:
+                    val = None if val is True else val
+            if val is True:
+                all_send.add(m)
+    ctx.check(bool(all_send), "R-ASYNC", "A-MaxSum variable: at least one start mode makes every variable send", avs, avs.node, "")
+    calls = [c for c in ast.walk(af.node) if isinstance(c, ast.Call) and norm(c.func) == "maxsum.factor_costs_for_var"]
+    if len(calls) != 1:
+        ctx.bad("R-ASYNC", "A-MaxSum factor: one place computes the answers", af, af.node, f"found {len(calls)}")
+        return
+    ff = FuncFacts(af.node)
+    defs = {}
+    for n_ in walk_no_nested(af.node):
+        if isinstance(n_, ast.Assign) and len(n_.targets) == 1 and isinstance(n_.targets[0], ast.Name):
+            defs.setdefault(n_.targets[0].id, []).append(n_)
+    env0 = {k: v[0].value for k, v in defs.items() if len(v) == 1 and "start_messages" in norm(v[0].value)}
+    store = [n_ for n_ in walk_no_nested(af.node) if isinstance(n_, ast.Assign) and norm(n_.targets[0]) == f"self._costs[{sender}]"]
+    conds = [(t, p) for t, p in ff.conds_at(calls[0])]
+    for m in modes:
+        env = dict(env0)
+        env["self.start_messages"] = m
+        gated, others = False, []
+        for t, p in conds:
+            v = _peval(t if p else ast.UnaryOp(op=ast.Not(), operand=t), env)
+            if v is True:
+                continue
+            if v is False:
+                ctx.bad("R-ASYNC", f"A-MaxSum factor ({m}): answers are computed", af, calls[0], f"under start_messages={m!r} the factor never answers")
+                break
+            txt = norm(v)
+            if "len(self._costs)" in txt:
+                gated = True
+                ctx.check(txt in ("len(self._costs) == len(self.factor.dimensions)", "len(self._costs) == len(self.variables)",
+                                  "len(self._costs) >= len(self.factor.dimensions)", "len(self._costs) >= len(self.variables)"),
+                          "R-ASYNC", f"A-MaxSum factor ({m}): deferral waits exactly for all variables", af, calls[0], f"found `{txt}`")
+            else:
+                others.append(v)
+        else:
+            ctx.check(not gated or m in all_send, "R-ASYNC", f"A-MaxSum factor ({m}): deferred answers need every variable to send at start", af, calls[0],
+                      f"under start_messages={m!r} inner variables send nothing until they receive a message, while the factor waits for all its variables: nobody ever sends (deadlock on any tree deeper than one hop)")
+            # who is excluded?
+            for v in others:
+                ds = _disjuncts(v)
+                txts = [norm(d) if isinstance(d, ast.AST) else repr(d) for d in ds]
+                excl_sender = f"v.name != {sender}" in txts or f"{sender} != v.name" in txts
+                rest = [d for d, t_ in zip(ds, txts) if t_ not in (f"v.name != {sender}", f"{sender} != v.name")]
+                ctx.check(excl_sender, "R-ASYNC", f"A-MaxSum factor ({m}): only the sender may be skipped", af, calls[0], f"unexpected restriction `{norm(v)}` on the recipients")
+                if gated:
+                    first = False
+                    for d in rest:
+                        dn = d
+                        if isinstance(d, ast.Name) and d.id in defs and len(defs[d.id]) == 1:
+                            dn = defs[d.id][0]
+                            ok_def = norm(dn.value) == f"{sender} not in self._costs" and store and dn.lineno < store[0].lineno
+                            first = first or bool(ok_def)
+                    ctx.check(first, "R-ASYNC", f"A-MaxSum factor ({m}): the message completing the set is answered to its sender too", af, calls[0],
+                              "while waiting for all variables nothing was sent: the variable whose first message completes the set must receive its costs, "
+                              "they depend on the other variables' messages received meanwhile")
+            if gated and not others:
+                ctx.ok("R-ASYNC", f"A-MaxSum factor ({m}): all variables answered when the set is complete", af, calls[0])
+
+
 def check(ctx: Ctx):
     repo = ctx.repo
     ctx.decided = ("factor_costs_for_var: per value of the target variable the optimum over all assignments of the other variables "
@@ -71,6 +212,7 @@ def check(ctx: Ctx):
     ctx.rule("R-MARGINAL", "a message to X is built from everything except what X itself sent")
     ctx.rule("R-CUTOFF", "changed message: send, count=1; unchanged: send while count < SAME_COUNT, count+1; else silent")
     ctx.rule("R-PROTO", "max_sum messages have a registered handler in the four classes and handlers read declared fields")
+    ctx.rule("R-ASYNC", "asynchronous factor/variable: recipients of an update; deferral cannot deadlock or starve the last sender")
     ctx.rule("R-DAMPING", "damped = damping*previous + (1-damping)*new, identity when there is no previous message")
 
     fcv = repo.func(MS, "factor_costs_for_var")
@@ -154,16 +296,16 @@ def check(ctx: Ctx):
         for f_, fld in ((fc, "_costs"), (vc, "costs" if mod == MS else "_costs")):
             st = [n_ for n_ in ast.walk(f_.node) if isinstance(n_, ast.Assign) and isinstance(n_.targets[0], ast.Subscript) and is_self_attr(n_.targets[0].value, fld)]
             ctx.check(len(st) == 1 and norm(st[0].value).endswith(".costs"), "R-PROTO", f"{f_.qualname}: received costs recorded per sender", f_, st[0] if st else f_.node, "")
-    # async specifics
-    af = repo.func(AMS, "MaxSumFactorComputation._on_maxsum_msg")
-    ffa = FuncFacts(af.node)
-    calls = [c for c in ast.walk(af.node) if isinstance(c, ast.Call) and norm(c.func) == "maxsum.factor_costs_for_var"]
-    ok = len(calls) == 1 and {("len(self._costs) == len(self.factor.dimensions)", True), (f"v.name != {af.params[1]}", True)} <= _facts(ffa, calls[0])
-    ctx.check(ok, "R-MARGINAL", "A-MaxSum factor: sends only once every variable reported, never back to the sender", af, calls[0] if calls else af.node,
-              "an asynchronous factor must wait for all its variables and must not echo to the variable that triggered the update")
+    # async specifics: who gets a message when a factor hears from `sender`
+    _async_factor(ctx, repo)
     av = repo.func(AMS, "MaxSumVariableComputation._on_maxsum_msg")
-    sk = [n_ for n_ in ast.walk(av.node) if isinstance(n_, ast.If) and norm(n_.test) == f"f_name == {av.params[1]}" and isinstance(n_.body[0], ast.Continue)]
-    ctx.check(len(sk) == 1, "R-MARGINAL", "A-MaxSum variable: never echoes to the sending factor", av, sk[0] if sk else av.node, "")
+    lv = [n_ for n_ in ast.walk(av.node) if isinstance(n_, ast.For) and norm(n_.iter) in ("self.factors", "self._factors")]
+    posts = [c for c in ast.walk(av.node) if isinstance(c, ast.Call) and is_self_attr(c.func, "post_msg")]
+    ffv = FuncFacts(av.node)
+    for c in posts:
+        extra = {x for x in _facts(ffv, c) if "approx_match" not in x[0] and "SAME_COUNT" not in x[0] and "damping" not in x[0]}
+        ctx.check(extra <= {(f"f_name == {av.params[1]}", False), (f"f_name != {av.params[1]}", True)}, "R-ASYNC", "A-MaxSum variable: every factor other than the sender is answered", av, c,
+                  f"the message to a factor may only be withheld from the factor that just wrote; extra conditions {sorted(extra)}")
     # ---- protocol -----------------------------------------------------------------------------------
     for mod in (MS, AMS):
         for cname in ("MaxSumFactorComputation", "MaxSumVariableComputation"):
@@ -183,6 +325,41 @@ def check(ctx: Ctx):
     first = [s for s in apm.node.body if isinstance(s, ast.If)][0]
     ctx.check(norm(first.test) == f"{apm.params[1]} is None" and norm(first.body[0]) == "return False" and t.rstrip().endswith("return True"), "R-CUTOFF",
               "approx_match: no previous message never matches; all values within tolerance match", apm, first, "")
+    # per value: the loop body may fall through (= this value matches) only when the two costs are equal or
+    # the relative-variation test against the stability coefficient passed
+    loops = [n for n in apm.node.body if isinstance(n, ast.For)]
+    coef = apm.params[2]
+    n_fall = 0
+    if len(loops) != 1:
+        ctx.bad("R-CUTOFF", "approx_match: one loop over the values", apm, apm.node, "expected a single loop over the cost table")
+    else:
+        from ..facts import if_paths
+        for facts, kind, st in if_paths(loops[0].body):
+            if kind in ("fall", "continue"):
+                n_fall += 1
+                txt = [(norm(t_), p_) for t_, p_ in facts if isinstance(t_, ast.Compare) and len(t_.ops) == 1]
+                equal = any((" != " in x and not p_) or (" == " in x and p_) for x, p_ in txt if coef not in x)
+                within = any(coef in x and ((" < " in x or " <= " in x) and p_ or (" > " in x or " >= " in x) and not p_) for x, p_ in txt)
+                ctx.check(equal or within, "R-CUTOFF", "approx_match: a value matches only if equal or within the stability tolerance", apm, loops[0],
+                          "a path lets a value count as 'matching' although the costs differ and no tolerance test passed: [" + "; ".join(("" if p_ else "not ") + x for x, p_ in txt) + "]")
+            elif kind == "return":
+                ctx.check(norm(st) == "return False", "R-CUTOFF", "approx_match: a per-value exit reports a mismatch", apm, st, "inside the loop only a mismatch may end the comparison")
+        ctx.check(n_fall >= 2, "R-CUTOFF", "approx_match: equal / within-tolerance paths present", apm, loops[0], "expected at least the 'equal' and the 'within tolerance' paths")
+    # default tolerance of the cut-off: exactness on trees needs every *changed* message to be sent
+    ctx.rule("R-STABILITY", "with default parameters the cut-off only suppresses unchanged messages (tolerance 0)")
+    dflt = None
+    for c in ast.walk(repo.module(MS).tree):
+        if isinstance(c, ast.Call) and call_name(c) == "AlgoParameterDef" and c.args and norm(c.args[0]) == "'stability'" and len(c.args) >= 4:
+            v = c.args[3]
+            if isinstance(v, ast.Name) and v.id in repo.module(MS).constants:
+                v = repo.module(MS).constants[v.id]
+            dflt = (c, v.value if isinstance(v, ast.Constant) else None)
+    if dflt is None:
+        ctx.bad("R-STABILITY", "stability parameter declared", repo.module(MS), repo.module(MS).tree, "AlgoParameterDef('stability', ...) not found")
+    else:
+        ctx.check(dflt[1] == 0, "R-STABILITY", "default stability tolerance is 0", repo.module(MS), dflt[0],
+                  f"default tolerance {dflt[1]}: a message whose relative change is below it is treated as unchanged and dropped after SAME_COUNT sends, "
+                  "so a late small correction never reaches the neighbour and the selected assignment can differ from the optimum on a tree")
     sc = repo.module(MS).constants.get("SAME_COUNT")
     ctx.check(sc is not None and isinstance(sc.value, int) and sc.value >= 1, "R-CUTOFF", "SAME_COUNT is a positive integer", repo.module(MS), sc or repo.module(MS).tree, "")
 
@@ -203,9 +380,17 @@ VARIANTS = [
     ("mode_const_at_site", _F, "            costs_v = factor_costs_for_var(self.factor, v, self._costs, self.mode)\n            prev_costs, count", "            costs_v = factor_costs_for_var(self.factor, v, self._costs, \"min\")\n            prev_costs, count", "break", "R-MODE.a"),
     ("cutoff_count_not_advanced", _F, "                self.post_msg(f_name, MaxSumMessage(costs_f))\n                self._prev_messages[f_name] = costs_f, count + 1", "                self.post_msg(f_name, MaxSumMessage(costs_f))\n                self._prev_messages[f_name] = costs_f, count", "break", "R-CUTOFF"),
     ("cutoff_changed_not_sent", _F, "            if not approx_match(\n                    costs_v, prev_costs, self.stability_coef\n            ):", "            if not approx_match(\n                    costs_v, prev_costs, self.stability_coef\n            ) and count < SAME_COUNT:", "break", "R-CUTOFF"),
-    ("async_echo", _A, "                if v.name != var_name:\n", "                if True:\n", "break", "R-MARGINAL"),
-    ("async_no_wait", _A, "        if len(self._costs) == len(self.factor.dimensions):", "        if len(self._costs) >= 1:", "break", "R-MARGINAL"),
-    ("async_var_echo", _A, "            if f_name == factor_name:\n                continue\n", "", "break", "R-MARGINAL"),
+    ("approx_zero_sum_skipped", _F, "        if prev_c != c:\n            delta = abs(prev_c - c)\n            if prev_c + c != 0:\n                if not ((2 * delta / abs(prev_c + c)) < stability_coef):\n                    return False\n            else:\n                return False\n",
+     "        if prev_c != c and prev_c + c != 0:\n            delta = abs(prev_c - c)\n            if not ((2 * delta / abs(prev_c + c)) < stability_coef):\n                return False\n", "break", "R-CUTOFF"),
+    ("approx_flat_neutral", _F, "            if prev_c + c != 0:\n                if not ((2 * delta / abs(prev_c + c)) < stability_coef):\n                    return False\n            else:\n                return False\n",
+     "            if prev_c + c == 0:\n                return False\n            if (2 * delta / abs(prev_c + c)) >= stability_coef:\n                return False\n", "neutral"),
+    ("async_gate_all_modes", _A, "        wait_all = self.start_messages != \"leafs\"\n", "        wait_all = True\n", "break", "R-ASYNC"),
+    ("async_last_sender_starved", _A, "                if v.name != var_name or (wait_all and first_msg_from_var):", "                if v.name != var_name:", "break", "R-ASYNC"),
+    ("async_first_flag_after_store", _A, "        first_msg_from_var = var_name not in self._costs\n        self._costs[var_name] = msg.costs\n", "        self._costs[var_name] = msg.costs\n        first_msg_from_var = var_name not in self._costs\n", "break", "R-ASYNC"),
+    ("async_skip_first_variable", _A, "                if v.name != var_name or (wait_all and first_msg_from_var):", "                if (v.name != var_name or (wait_all and first_msg_from_var)) and v is not self.variables[0]:", "break", "R-ASYNC"),
+    ("async_no_gate_neutral", _A, "        if not wait_all or len(self._costs) == len(self.factor.dimensions):", "        if True:", "neutral"),
+    ("async_echo_all_neutral", _A, "                if v.name != var_name or (wait_all and first_msg_from_var):", "                if True:", "neutral"),
+    ("async_var_extra_skip", _A, "            if f_name == factor_name:\n                continue\n", "            if f_name == factor_name or f_name == self._factors[0]:\n                continue\n", "break", "R-ASYNC"),
     ("damping_swapped", _F, "            damped_costs[d] = damping * prev_costs[d] + (1 - damping) * c", "            damped_costs[d] = (1 - damping) * prev_costs[d] + damping * c", "break", "R-DAMPING"),
     ("handler_unregistered", _A, "    @register(\"max_sum\")\n    def _on_maxsum_msg(self, factor_name, msg, t):", "    def _on_maxsum_msg(self, factor_name, msg, t):", "break", "R-PROTO"),
 ]
